@@ -1,5 +1,5 @@
 from .. import facts
-from ..rules import alloc, region
+from ..rules import alloc, region, image
 
 
 def run(ck):
@@ -10,3 +10,5 @@ def run(ck):
     alloc.r3_local_ownership(ck, P)
     region.r15_4_sentinels(ck, P)
     region.r2_failure_protocol(ck, P)
+    image.r15_6_free_while_linked(ck, P)
+    image.r20_6_region_reinit(ck, P)
